@@ -73,6 +73,15 @@ static size_t fbuf_n, fbuf_off;
 static bool frame_pending; /* header delivered, event not yet emitted */
 static struct vh_buf fdesc; /* JSON description of the frame being delivered */
 static long first_to = -1;
+/* every transport receive call that contributed to the current frame: time of the call, timeout handed in, offset */
+static struct {
+	long now, to;
+	size_t off;
+} rcalls[24];
+static int rcalls_n;
+static long cur_ctick; /* seconds that pass after each partial delivery of the current frame */
+static long send_tick; /* seconds that pass after the first partial write of the current query */
+static bool query_in_sbuf; /* the incomplete PDU in sbuf is a query whose directive has not been consumed yet */
 
 /* values handed to the specification stay below 2^30 (TLC integers are 32 bit); the virtual clock
  * never advances by more than 2^22 s in one step */
@@ -170,6 +179,7 @@ static void put_sock(struct vh_buf *b)
 		rsock.is_resetting);
 }
 static pthread_mutex_t out_mx = PTHREAD_MUTEX_INITIALIZER;
+static unsigned long long out_bytes;
 static void emit(struct vh_buf *b)
 {
 	if (!logging)
@@ -177,7 +187,14 @@ static void emit(struct vh_buf *b)
 	pthread_mutex_lock(&out_mx);
 	fputs(b->p, out);
 	fputc('\n', out);
+	out_bytes += strlen(b->p) + 1;
 	pthread_mutex_unlock(&out_mx);
+	if (out_bytes > 3000000000ull) {
+		/* a trace this long means the client is spinning */
+		fflush(out);
+		fprintf(stderr, "HANG: trace exceeds 3 GB\n");
+		_exit(3);
+	}
 }
 static __thread struct vh_buf evb;
 static void ev_begin(const char *name)
@@ -436,6 +453,15 @@ static void describe_frame(struct vh_buf *b, const uint8_t *p, size_t n)
 	vh_bput(b, "\",\"rawcut\":%s}", n > 160 ? "true" : "false");
 }
 
+static void put_rcalls(struct vh_buf *b)
+{
+	if (rcalls_n < 2)
+		return;
+	vh_bput(b, "\"calls\":[");
+	for (int i = 0; i < rcalls_n; i++)
+		vh_bput(b, "%s{\"now\":%ld,\"to\":%ld,\"off\":%zu}", i ? "," : "", rcalls[i].now, sat(rcalls[i].to), rcalls[i].off);
+	vh_bput(b, "],");
+}
 /* ------------------------------------------------------------------ flushing a pending frame event */
 static void flush_frame(bool full)
 {
@@ -446,9 +472,11 @@ static void flush_frame(bool full)
 		full = true;
 	ev_begin("recv");
 	vh_bput(&evb, ",\"f\":%s,\"full\":%s,\"consumed\":%zu,\"to\":%ld,", fdesc.p, full ? "true" : "false", fbuf_off, sat(first_to));
+	put_rcalls(&evb);
 	put_ivs(&evb);
 	ev_end(false);
 	first_to = -1;
+	rcalls_n = 0;
 	if (!full) {
 		/* the client abandoned the frame after its header: the rest of the frame is dropped */
 		fbuf_n = fbuf_off = 0;
@@ -554,6 +582,7 @@ static void conn_reset(void)
 		ev_end(false);
 	}
 	sbuf_n = 0;
+	query_in_sbuf = false;
 	send_failed_on_conn = false;
 	got_error_report = false;
 	cur_items = NULL;
@@ -680,10 +709,22 @@ static void begin_exchange(const uint8_t *q)
 static int t_send(const void *s, const void *pdu, const size_t len, const time_t timeout)
 {
 	(void)s;
-	(void)timeout;
 	seam();
 	flush_frame(false);
 	const uint8_t *p = pdu;
+
+	if (sbuf_n > 0 && timeout <= 0 && conn_open && !done) {
+		/* the client's send deadline has passed in the middle of a PDU: a transport asked to wait no time at all
+		 * reports that it would block; the PDU stays incomplete and the client must give the connection up */
+		ev_begin("sendfail");
+		vh_bput(&evb, ",\"kind\":\"deadline\",\"partial\":%zu", sbuf_n);
+		ev_end(false);
+		send_failed_on_conn = true;
+		if (query_in_sbuf && exq_i < exq_n)
+			exq_i++; /* the directive is consumed by the query that could not be completed */
+		query_in_sbuf = false;
+		return TR_WOULDBLOCK;
+	}
 #ifdef VH_MSAN
 	/* property C14: no byte handed to the transport stems from uninitialised memory */
 	if (__msan_test_shadow(pdu, len) != -1) {
@@ -722,6 +763,7 @@ static int t_send(const void *s, const void *pdu, const size_t len, const time_t
 		}
 		rc = vj_str(ex, "sendrc", "ok");
 		chunk = vj_int(ex, "sendchunk", 0);
+		send_tick = vj_int(ex, "sendtick", 0);
 	}
 	if (done)
 		return TR_ERROR;
@@ -747,8 +789,19 @@ static int t_send(const void *s, const void *pdu, const size_t len, const time_t
 
 	memcpy(sbuf + sbuf_n, p, n);
 	sbuf_n += n;
-	if (was_query_start)
+	if (was_query_start) {
 		memcpy(qcopy, p, len < 12 ? len : 12);
+		query_in_sbuf = true;
+	}
+	if (send_tick > 0 && n < len) {
+		/* a congested link: time passes before the rest of the PDU can be written */
+		vnow += send_tick;
+		progress();
+		ev_begin("tick");
+		vh_bput(&evb, ",\"d\":%ld", send_tick);
+		ev_end(false);
+		send_tick = 0;
+	}
 	/* complete PDUs are reported (and a completed query selects the cache's reaction) */
 	if (sbuf_n >= 8) {
 		uint32_t l = get32(sbuf + 4);
@@ -760,6 +813,7 @@ static int t_send(const void *s, const void *pdu, const size_t len, const time_t
 			if (chunk > 0)
 				cur_chunk = chunk;
 			drain_sbuf();
+			query_in_sbuf = false;
 			begin_exchange(q);
 			progress();
 			return (int)n;
@@ -832,6 +886,8 @@ static int t_recv(const void *s, void *buf, const size_t len, const time_t timeo
 {
 	(void)s;
 	seam();
+	long call_now = (long)vnow;
+
 	if (done) {
 		park_until_go();
 		return TR_ERROR;
@@ -867,12 +923,38 @@ static int t_recv(const void *s, void *buf, const size_t len, const time_t timeo
 		}
 		first_to = (long)timeout;
 		cut_at = -1;
+		rcalls_n = 0;
 		struct vj *it = cur_items->items[cur_item_i - 1];
+
+		cur_ctick = vj_int(it, "ctick", 0);
 
 		if (vj_get(it, "cut")) {
 			cut_at = vj_int(it, "cut", 0);
 			cut_kind = vj_str(it, "cutkind", "err");
 		}
+	}
+	if (rcalls_n < 24) {
+		rcalls[rcalls_n].now = call_now; /* the time at which the client made the call (ticks scripted before the frame pass inside it) */
+		rcalls[rcalls_n].to = (long)timeout;
+		rcalls[rcalls_n].off = fbuf_off;
+		rcalls_n++;
+	}
+	if (fbuf_off > 0 && timeout <= 0 && !(cut_at >= 0 && (int)fbuf_off >= cut_at)) {
+		/* the client's deadline for this header / body has passed while the frame was trickling in: a transport
+		 * asked to wait no time at all reports a timeout */
+		bool in_hdr = fbuf_off < 8;
+
+		frame_pending = false;
+		ev_begin("rfault");
+		vh_bput(&evb, ",\"kind\":\"timeout\",\"at\":\"%s\",\"to\":%ld,\"adv\":0,\"off\":%zu,\"f\":%s,", in_hdr ? "hdr" : "body",
+			sat(timeout), fbuf_off, fdesc.p);
+		put_rcalls(&evb);
+		put_ivs(&evb);
+		ev_end(false);
+		fbuf_n = fbuf_off = 0;
+		cut_at = -1;
+		rcalls_n = 0;
+		return TR_WOULDBLOCK;
 	}
 	if (cut_at >= 0 && (int)fbuf_off >= cut_at) {
 		/* transport fault in the middle of a frame */
@@ -907,6 +989,8 @@ static int t_recv(const void *s, void *buf, const size_t len, const time_t timeo
 	memcpy(buf, fbuf + fbuf_off, n);
 	fbuf_off += n;
 	progress();
+	if (cur_ctick > 0 && fbuf_off < fbuf_n)
+		vnow += cur_ctick; /* the rest of the frame takes its time */
 	if (fbuf_off >= 8 || fbuf_off >= fbuf_n)
 		frame_pending = true;
 	if (fbuf_off >= fbuf_n)
